@@ -7,6 +7,7 @@ import (
 	"math/big"
 	"strings"
 	"testing"
+	"time"
 
 	"gonum.org/v1/gonum/mat"
 	"gonum.org/v1/gonum/optimize/convex/lp"
@@ -36,6 +37,7 @@ type lpOracle struct {
 	zeroCol    bool
 	zeroColNeg bool // a zero column with negative cost
 	rankDef    bool
+	truth      lpClass // optimal / infeasible / unbounded, also for structurally odd programs
 	feasible   bool    // some x >= 0 with A x = b exists (only computed for full row rank)
 	feasBases  [][]int // primal feasible bases
 	degenerate bool    // some feasible basis has a zero basic variable
@@ -92,6 +94,9 @@ func ratRank(a [][]*big.Rat) int {
 // ratInverse returns the inverse of the square matrix b, or nil if singular.
 func ratInverse(b [][]*big.Rat) [][]*big.Rat {
 	m := len(b)
+	if m == 0 {
+		return [][]*big.Rat{}
+	}
 	w := make([][]*big.Rat, m)
 	for i := range w {
 		w[i] = make([]*big.Rat, 2*m)
@@ -187,11 +192,14 @@ func solveLPExact(m, n int, a, b, c []int) lpOracle {
 		cR[j] = big.NewRat(int64(c[j]), 1)
 	}
 	if o.rankDef {
-		// feasibility is still meaningful for the error that may be reported, but
-		// Simplex documents an error for such A; no further classification.
-		o.class = lpStructural
-		o.nonTrivial = true
-		return o
+		// Simplex documents "an error" for such A, but the error has to be a true
+		// statement about the program: reduce [A|b] to an equivalent system of
+		// full row rank (or find it inconsistent) and classify that.
+		A, bR, m = ratReduce(A, bR)
+		if A == nil {
+			o.class, o.truth, o.nonTrivial = lpStructural, lpInfeasible, true
+			return o
+		}
 	}
 	var optimal *big.Rat
 	costSet := map[string]bool{}
@@ -255,19 +263,76 @@ func solveLPExact(m, n int, a, b, c []int) lpOracle {
 	o.costs = len(costSet)
 	o.feasible = len(o.feasBases) > 0
 	switch {
-	case o.zeroCol:
-		// (a zero row implies rankDef, handled above)
-		o.class = lpStructural
 	case !o.feasible:
-		o.class = lpInfeasible
+		o.truth = lpInfeasible
 	case optimal == nil:
-		o.class = lpUnbounded
+		o.truth = lpUnbounded
 	default:
-		o.class = lpOptimal
+		o.truth = lpOptimal
 		o.opt = optimal
+	}
+	o.class = o.truth
+	if o.zeroCol || o.zeroRow || o.rankDef {
+		o.class = lpStructural
+		o.feasBases = nil // bases of the reduced system
 	}
 	o.nonTrivial = o.class != lpOptimal || o.degenerate || o.costs >= 2
 	return o
+}
+
+// ratReduce brings [A|b] to reduced row echelon form and returns the non-zero
+// rows (a system of full row rank with the same solutions), or nil if the
+// system is inconsistent.
+func ratReduce(A [][]*big.Rat, b []*big.Rat) ([][]*big.Rat, []*big.Rat, int) {
+	m := len(A)
+	n := len(A[0])
+	w := make([][]*big.Rat, m)
+	for i := range w {
+		w[i] = make([]*big.Rat, n+1)
+		for j := 0; j < n; j++ {
+			w[i][j] = new(big.Rat).Set(A[i][j])
+		}
+		w[i][n] = new(big.Rat).Set(b[i])
+	}
+	rank := 0
+	for col := 0; col < n && rank < m; col++ {
+		p := -1
+		for i := rank; i < m; i++ {
+			if w[i][col].Sign() != 0 {
+				p = i
+				break
+			}
+		}
+		if p < 0 {
+			continue
+		}
+		w[rank], w[p] = w[p], w[rank]
+		inv := new(big.Rat).Inv(w[rank][col])
+		for j := 0; j <= n; j++ {
+			w[rank][j] = new(big.Rat).Mul(w[rank][j], inv)
+		}
+		for i := 0; i < m; i++ {
+			if i == rank || w[i][col].Sign() == 0 {
+				continue
+			}
+			f := new(big.Rat).Set(w[i][col])
+			for j := 0; j <= n; j++ {
+				w[i][j] = new(big.Rat).Sub(w[i][j], new(big.Rat).Mul(f, w[rank][j]))
+			}
+		}
+		rank++
+	}
+	for i := rank; i < m; i++ {
+		if w[i][n].Sign() != 0 {
+			return nil, nil, 0
+		}
+	}
+	outA := make([][]*big.Rat, rank)
+	outB := make([]*big.Rat, rank)
+	for i := 0; i < rank; i++ {
+		outA[i], outB[i] = w[i][:n], w[i][n]
+	}
+	return outA, outB, rank
 }
 
 // ---- Simplex on standard-form programs ------------------------------------------------------
@@ -310,7 +375,7 @@ func numericGiveUp(err error) (string, bool) {
 // judgeSimplex compares a Simplex outcome with the oracle. sub is used in messages only.
 func judgeSimplex(o lpOracle, m, n int, a, b, c []int, optF float64, optX []float64, err error, what string) *vk.Failure {
 	show := func() string {
-		return fmt.Sprintf("%s m=%d n=%d A=%v b=%v c=%v: oracle %v (opt %v, %d feasible bases) got optF=%v optX=%v err=%v", what, m, n, a, b, c, o.class, ratStr(o.opt), len(o.feasBases), optF, optX, err)
+		return fmt.Sprintf("%s m=%d n=%d A=%v b=%v c=%v: oracle %v/%v (opt %v, %d feasible bases) got optF=%v optX=%v err=%v", what, m, n, a, b, c, o.class, o.truth, ratStr(o.opt), len(o.feasBases), optF, optX, err)
 	}
 	if err != nil {
 		if why, ok := numericGiveUp(err); ok && o.class != lpStructural {
@@ -323,9 +388,17 @@ func judgeSimplex(o lpOracle, m, n int, a, b, c []int, optF float64, optX []floa
 		if err == nil {
 			return vk.Failf("structural-defect-no-error", "%s", show())
 		}
+		// "A must also have full row rank and may not contain any columns with all
+		// zeros, or Simplex will return an error": which one is not said, but it
+		// has to be a true statement about the program.
 		ok := (o.zeroRow && errors.Is(err, lp.ErrZeroRow)) || (o.zeroCol && errors.Is(err, lp.ErrZeroColumn)) ||
-			(o.rankDef && errors.Is(err, lp.ErrSingular)) || (o.zeroColNeg && errors.Is(err, lp.ErrUnbounded)) ||
-			(o.zeroRow && errors.Is(err, lp.ErrInfeasible))
+			(o.rankDef && errors.Is(err, lp.ErrSingular)) || (o.truth == lpUnbounded && errors.Is(err, lp.ErrUnbounded)) ||
+			(o.truth == lpInfeasible && errors.Is(err, lp.ErrInfeasible))
+		if !ok && o.zeroColNeg && o.truth == lpInfeasible && errors.Is(err, lp.ErrUnbounded) {
+			// verifyInputs answers ErrUnbounded for a zero column with negative
+			// cost without looking at feasibility
+			return vk.Failf("zero-column-negative-cost-infeasible-program-reported-unbounded", "%s", show())
+		}
 		if !ok {
 			if _, give := numericGiveUp(err); give {
 				vk.Inconclusive("simplex-numeric-give-up/structural")
@@ -401,6 +474,40 @@ func ratStr(r *big.Rat) string {
 	return r.RatString()
 }
 
+// simplexDeadline bounds the wait for lp.Simplex. A program of this size needs
+// microseconds; Simplex has no iteration limit, and a call that cycles would
+// otherwise only be seen by the hang watchdog of the kit (which cannot tell
+// one known cycling defect from a new one). The goroutine of a call that does
+// not return is abandoned.
+const simplexDeadline = 10 * time.Second
+
+func callSimplex(c []float64, A mat.Matrix, b []float64, basis []int) (optF float64, optX []float64, err error, panicText string, returned bool) {
+	type res struct {
+		f   float64
+		x   []float64
+		err error
+		p   string
+	}
+	ch := make(chan res, 1)
+	go func() {
+		var r res
+		cr := vk.Call(func() { r.f, r.x, r.err = lp.Simplex(c, A, b, 1e-10, basis) })
+		if cr.Outcome != vk.Returned {
+			r.p = cr.Text
+			if r.p == "" {
+				r.p = "panic"
+			}
+		}
+		ch <- r
+	}()
+	select {
+	case r := <-ch:
+		return r.f, r.x, r.err, r.p, true
+	case <-time.After(simplexDeadline):
+		return 0, nil, nil, "", false
+	}
+}
+
 func checkLP(c lpCase) *vk.Failure {
 	vk.Sample("lp-simplex", c)
 	m, n := c.M, c.N
@@ -424,13 +531,13 @@ func checkLP(c lpCase) *vk.Failure {
 		what = fmt.Sprintf("Simplex(initialBasic=%v)", basis)
 		vk.Class("lp/with-initial-basis")
 	}
-	var optF float64
-	var optX []float64
-	var err error
 	cF, bF := toF(c.C), toF(c.B)
-	r := vk.Call(func() { optF, optX, err = lp.Simplex(cF, A, bF, 1e-10, basis) })
-	if r.Outcome != vk.Returned {
-		return vk.Failf("simplex-panics", "%s m=%d n=%d A=%v b=%v c=%v (oracle %v): %s", what, m, n, c.A, c.B, c.C, o.class, r.Text)
+	optF, optX, err, ptxt, returned := callSimplex(cF, A, bF, basis)
+	if !returned {
+		return vk.Failf("simplex-does-not-return", "%s m=%d n=%d A=%v b=%v c=%v (oracle %v, %d feasible bases, degenerate=%v): no answer after %v", what, m, n, c.A, c.B, c.C, o.class, len(o.feasBases), o.degenerate, simplexDeadline)
+	}
+	if ptxt != "" {
+		return vk.Failf("simplex-panics", "%s m=%d n=%d A=%v b=%v c=%v (oracle %v): %s", what, m, n, c.A, c.B, c.C, o.class, ptxt)
 	}
 	for i, v := range cF {
 		if v != float64(c.C[i]) {
@@ -448,7 +555,53 @@ func checkLP(c lpCase) *vk.Failure {
 	return judgeSimplex(o, m, n, c.A, c.B, c.C, optF, optX, err, what)
 }
 
+// cyclingCorpus: completely degenerate programs (b = 0) on which a pivoting
+// rule that is not Bland's rule by variable index can cycle.
+var cyclingCorpus = []lpCase{
+	{M: 3, N: 7, C: []int{2, -1, -2, -1, 1, 1, 0}, B: []int{0, 0, 0},
+		A: []int{2, -1, 0, 0, 1, -2, 0, 1, 0, -2, -2, -2, 1, 1, 1, 1, 0, -2, 0, -2, -1}},
+	{M: 4, N: 8, C: []int{-2, -2, 4, -1, 1, 4, 0, 3}, B: []int{0, 0, 0, 0},
+		A: []int{0, 2, 2, -2, 0, 2, 0, 0, -2, 0, 2, 2, -1, 0, -1, 2, 1, -2, -2, -2, -2, 2, 0, 1, 0, -1, 2, -1, 1, 0, 0, 0}},
+	{M: 4, N: 8, C: []int{4, 1, -2, 3, 4, 1, -1, -2}, B: []int{0, 0, 0, 0},
+		A: []int{2, 0, 0, 0, 2, -1, -2, 0, -2, 0, -2, 0, 1, 0, 0, 1, -2, 0, 1, 0, -1, 2, 0, 0, 0, 1, 2, 1, 0, -2, -1, 0}},
+	{M: 4, N: 8, C: []int{0, 3, 0, 0, 4, -2, 3, 0}, B: []int{0, 0, 0, 0},
+		A: []int{1, -2, -2, 1, 0, 2, -2, -2, -2, 0, -2, 2, -1, 0, 1, 2, -1, 1, 0, 1, 0, 0, -2, 0, 0, -2, 0, -1, 0, 2, -1, -1}},
+}
+
+// corpusCase returns instance k, with its columns permuted and rows negated
+// according to seed (0: unchanged).
+func corpusCase(k int, seed uint64) lpCase {
+	src := cyclingCorpus[k%len(cyclingCorpus)]
+	c := lpCase{M: src.M, N: src.N, A: append([]int{}, src.A...), B: append([]int{}, src.B...), C: append([]int{}, src.C...)}
+	if seed == 0 {
+		return c
+	}
+	r := vk.NewSplitMix(seed)
+	perm := r.Perm(c.N)
+	for i := 0; i < c.M; i++ {
+		sign := 1
+		if r.Intn(2) == 0 {
+			sign = -1
+		}
+		for j := 0; j < c.N; j++ {
+			c.A[i*c.N+j] = sign * src.A[i*c.N+perm[j]]
+		}
+	}
+	for j := 0; j < c.N; j++ {
+		c.C[j] = src.C[perm[j]]
+	}
+	return c
+}
+
 func drawLP(t *rapid.T) lpCase {
+	if rapid.IntRange(0, 1999).Draw(t, "corpus") == 0 {
+		k := rapid.IntRange(0, len(cyclingCorpus)-1).Draw(t, "instance")
+		seed := uint64(0)
+		if rapid.Bool().Draw(t, "variant") {
+			seed = rapid.Uint64Range(1, 1<<20).Draw(t, "variantseed")
+		}
+		return corpusCase(k, seed)
+	}
 	m := rapid.IntRange(1, 4).Draw(t, "m")
 	n := rapid.IntRange(m, 7).Draw(t, "n")
 	if rapid.IntRange(0, 7).Draw(t, "square") == 0 {
@@ -462,7 +615,7 @@ func drawLP(t *rapid.T) lpCase {
 	for j := range c.C {
 		c.C[j] = rapid.IntRange(-5, 5).Draw(t, "c")
 	}
-	kind := rapid.IntRange(0, 9).Draw(t, "kind")
+	kind := rapid.IntRange(0, 10).Draw(t, "kind")
 	clamp := func(v int) int { return max(-5, min(5, v)) }
 	switch {
 	case kind <= 3:
@@ -524,8 +677,24 @@ func drawLP(t *rapid.T) lpCase {
 		c.C[j] = rapid.IntRange(-5, 2).Draw(t, "cj")
 		c.C[k] = -c.C[j] - rapid.IntRange(1, 3).Draw(t, "gap")
 		c.C[k] = clamp(c.C[k])
+	case kind == 7:
+		// a completely degenerate vertex: b = 0, dense small entries, many ties
+		// among the reduced costs and ratios
+		for i := range c.A {
+			c.A[i] = rapid.IntRange(-2, 2).Draw(t, "a0")
+		}
+		for j := range c.C {
+			c.C[j] = rapid.IntRange(-2, 4).Draw(t, "c0")
+		}
 	case kind == 6:
-		// structural oddities: duplicate / zero rows and columns
+		// structural oddities: duplicate / zero rows and columns, with a right-hand
+		// side that is consistent (b = A x̄, x̄ >= 0) half of the time, so that
+		// redundant rows of feasible programs occur as well as contradictory ones
+		xbar := make([]int, n)
+		for j := range xbar {
+			xbar[j] = rapid.SampledFrom([]int{0, 0, 1, 1, 2}).Draw(t, "xbar6")
+		}
+		consistent := rapid.Bool().Draw(t, "consistent")
 		for i := range c.B {
 			c.B[i] = rapid.IntRange(-3, 5).Draw(t, "b")
 		}
@@ -542,7 +711,10 @@ func drawLP(t *rapid.T) lpCase {
 			}
 			if rapid.Bool().Draw(t, "zrb") {
 				c.B[i] = 0
+			} else if c.B[i] == 0 {
+				c.B[i] = 3
 			}
+			consistent = consistent && c.B[i] == 0
 		case 2: // duplicate row
 			if m >= 2 {
 				i := rapid.IntRange(1, m-1).Draw(t, "dr")
@@ -558,6 +730,14 @@ func drawLP(t *rapid.T) lpCase {
 				j := rapid.IntRange(1, n-1).Draw(t, "dc")
 				for i := 0; i < m; i++ {
 					c.A[i*n+j] = c.A[i*n+j-1]
+				}
+			}
+		}
+		if consistent {
+			for i := 0; i < m; i++ {
+				c.B[i] = 0
+				for j := 0; j < n; j++ {
+					c.B[i] += c.A[i*n+j] * xbar[j]
 				}
 			}
 		}
@@ -673,12 +853,12 @@ func checkConvert(c convCase) *vk.Failure {
 	if o.nonTrivial {
 		vk.NonTrivial("convert", c)
 	}
-	var optF float64
-	var optX []float64
-	var err error
-	r = vk.Call(func() { optF, optX, err = lp.Simplex(cNew, aNew, bNew, 1e-10, nil) })
-	if r.Outcome != vk.Returned {
-		return vk.Failf("convert-simplex-panics", "%s: %s", desc, r.Text)
+	optF, optX, err, ptxt, returned := callSimplex(cNew, aNew, bNew, nil)
+	if !returned {
+		return vk.Failf("simplex-does-not-return", "Simplex(Convert(%s)): no answer after %v", desc, simplexDeadline)
+	}
+	if ptxt != "" {
+		return vk.Failf("convert-simplex-panics", "%s: %s", desc, ptxt)
 	}
 	if f := judgeSimplex(o, m, n, wantA, wantB, wantC, optF, optX, err, "Simplex(Convert("+desc+"))"); f != nil {
 		return f
